@@ -212,7 +212,9 @@ task_bezier_sym.contract_fn = "heavy.Operations.degree_increase_bezier"
 
 
 def tasks(tier, seed):
-    ts = []
+    from ..pyvc.driver import verify
+    from ..contracts import misc
+    ts = [(verify, (misc.BEZIER_ONCE, "heavy", "Operations.degree_increase_bezier_once", None))]
     for sh in tier_shapes(tier):
         for variant, ks, U in con.vectors(sh, tier, seed):
             if tier == "quick" and variant == 1 and sh[0] == 3:
